@@ -177,7 +177,8 @@ func (globber *Globber) walkDir(rootPath string) (walkedDir, error) {
 	dir := walkedDir{}
 	err := iofs.WalkDir(globber.fs, rootPath, func(path string, d iofs.DirEntry, err error) error {
 		typeMode := mode(d.Type())
-		if isBuildFile(globber.buildFileNames, path) {
+		// A directory that happens to be called BUILD doesn't make its parent a package (see IsPackage)
+		if isBuildFile(globber.buildFileNames, path) && !d.IsDir() {
 			packageName := filepath.Dir(path)
 			if packageName != rootPath {
 				dir.subPackages = append(dir.subPackages, packageName)
